@@ -225,7 +225,7 @@ def main(argv=None):
     sys.stdout.flush()
 
     chunk = max(1, min(64, n_runs // (a.workers * 8) or 1))
-    per_run_timeout = getattr(mod, "RUN_TIMEOUT_S", 300)
+    per_run_timeout = getattr(mod, "RUN_TIMEOUT_S", 180)
     results = {}
     harness_errors = []
     skipped = 0
@@ -352,7 +352,7 @@ def main(argv=None):
             selftest["fresh_interpreter_other_hashseed"] = n_cmp
 
     # ---- classify verdicts
-    known = findings.load()
+    known = [] if os.environ.get("VERIF_IGNORE_KNOWN") else findings.load()
     known_hits = {}
     unknown = []
     for i, seed, v in all_verdicts:
